@@ -3,6 +3,7 @@
 -/
 import XsProps.Common
 import XsProofs.Import
+import XsProofs.HttpImport
 namespace Xs.C20
 
 /-- importing, in any order, every stored frame of a store into an empty store reproduces the
@@ -69,5 +70,29 @@ theorem import_silent (s s' : State) (f : Frame) (e : s.insertFrame f = .ok s') 
     s'.gcq = s.gcq ∧ s'.bcast = s.bcast := by
   obtain ⟨_, _, rfl⟩ := insertFrame_ok e
   exact ⟨rfl, rfl⟩
+
+open Xs.Http in
+/-- over HTTP (`POST /cas` for the contents, `POST /import` for the frames, as `.import` does):
+    whatever the order of the requests - frames before their content, frames before the
+    registration of their context, the two kinds interleaved - an empty server that has been sent
+    every stored frame of a store holds the original's frames and usable contexts, and its
+    content store holds the contents in the order they were sent: neither kind of request looks
+    at the other -/
+theorem http_import_any_order (ops : List Op) (w : WfOps ops) (items : List Item)
+    (hp : (items.filterMap Item.frame?).Perm (frames (after ops))) :
+    frames (session {} items).store = frames (after ops) ∧
+    (∀ c, c ∈ (session {} items).store.contexts ↔ c ∈ (after ops).contexts) ∧
+    (session {} items).cas = (items.filterMap Item.content?).foldl casStep [] := by
+  have h := Xs.export_import_roundtrip (after_inv w) hp
+  rw [session_store, session_cas]
+  exact ⟨h.1, h.2, rfl⟩
+
+open Xs.Http in
+/-- non-vacuity: a frame sent before its content and before a second frame; both kinds land -/
+example :
+    let f1 : Frame := { topic := [97], ctx := 0, id := 5, hash := some "h", mdata := none, ttl := none }
+    let f2 : Frame := { topic := [98], ctx := 0, id := 3, hash := none, mdata := none, ttl := none }
+    let s := session {} [.frame f1, .content "h" [1, 2], .frame f2]
+    ((frames s.store).map (·.id), s.cas) = ([3, 5], [("h", [1, 2])]) := by decide
 
 end Xs.C20
